@@ -8,7 +8,8 @@ Import ListNotations.
 Inductive ev :=
 | Validate (name : string)     (* may raise; no other effect *)
 | Pure                         (* assignment of a call-free expression / fresh-object construction *)
-| Work                         (* any other statement: no raise / return / flag access inside *)
+| Work                         (* any other statement: no return / flag access inside; it MAY RAISE
+                                  (a pandas error, a tokenizer error on a cell, ...) *)
 | FlipTo (b : bool)            (* revert := False; if flag <> b: set flag b; revert := True *)
 | Restore (b : bool)           (* if revert: set flag b *)
 | EarlyRet                     (* if <cond>: return *)
@@ -26,14 +27,16 @@ Definition skeleton := list item.
 Inductive status := Running | Returned | Raised.
 Record cstate := { flag : bool; saved : bool; work_done : nat }.
 
-(* the oracle decides, per event number, whether a Validate raises / an EarlyRet returns *)
+(* the oracle decides, per event number, whether a Validate or a Work statement raises / an
+   EarlyRet returns *)
 Definition oracle := nat -> bool.
 
 Definition run_ev (o : oracle) (n : nat) (st : cstate) (e : ev) : status * cstate :=
   match e with
   | Validate _ => (if o n then Raised else Running, st)
   | Pure | Begin _ | End _ => (Running, st)
-  | Work => (Running, {| flag := flag st; saved := saved st; work_done := S (work_done st) |})
+  | Work => (if o n then Raised else Running,
+             {| flag := flag st; saved := saved st; work_done := S (work_done st) |})
   | FlipTo b => (Running, if Bool.eqb (flag st) b
                           then {| flag := flag st; saved := false; work_done := work_done st |}
                           else {| flag := b; saved := true; work_done := work_done st |})
@@ -76,7 +79,9 @@ Definition check_ev (a : astate) (e : ev) : option astate :=
   match e, a with
   | Validate _, AClean => Some AClean
   | Validate _, AFlipped _ => None             (* a raise here would leak the flipped flag *)
-  | (Pure | Work | Begin _ | End _), _ => Some a
+  | (Pure | Begin _ | End _), _ => Some a
+  | Work, AClean => Some AClean
+  | Work, AFlipped _ => None                   (* a raise here would leak the flipped flag *)
   | FlipTo b, AClean => Some (AFlipped b)
   | FlipTo _, AFlipped _ => None
   | Restore b, AFlipped b' => if Bool.eqb b (negb b') then Some AClean else None
